@@ -3,10 +3,10 @@ package parser
 import (
 	"os"
 	s "strings"
+	"sync"
 	"unsafe"
 
 	"github.com/antlr/antlr4/runtime/Go/antlr"
-	"github.com/cornelk/hashmap"
 	"github.com/sirupsen/logrus"
 )
 
@@ -28,9 +28,11 @@ var (
 		"while",
 	}
 
-	// Antlr doesn't support reentrant Go lexer state, so we work around it with
-	// a fast lock-free hash map.
-	lexerStates = &hashmap.HashMap{}
+	// Antlr doesn't support reentrant Go lexer state, so we work around it with a
+	// concurrent map keyed by lexer address. (The lock-free hash map used before could
+	// not take bursts of concurrent insertions and deletions: its grow step ran away and
+	// the process died with "out of memory" when many compilations ran at once.)
+	lexerStates sync.Map // uintptr -> *lexerState
 )
 
 const importKeyword = "import"
@@ -52,17 +54,17 @@ type lexerState struct {
 
 func ls(l *SyslLexer) *lexerState {
 	key := uintptr(unsafe.Pointer(l))
-	if state, has := lexerStates.Get(key); has {
+	if state, has := lexerStates.Load(key); has {
 		return state.(*lexerState)
 	}
 	state := &lexerState{}
-	lexerStates.Set(key, state)
+	lexerStates.Store(key, state)
 	return state
 }
 
 func DeleteLexerState(l *SyslLexer) {
 	key := uintptr(unsafe.Pointer(l))
-	lexerStates.Del(key)
+	lexerStates.Delete(key)
 }
 
 func calcSpaces(text string) int {
